@@ -605,6 +605,31 @@ func TestKnown_C07_LeftoverHeartbeatLoopDeposesNextTerm(t *testing.T) {
 
 var kvSlow func(k *natsmock.MockKeyValue)
 
+// C13.one_acquisition_round_at_a_time: a live record with an empty value and a watch that ends at once. Every
+// generation of the watch loop starts two acquisition rounds (the empty initial value, the closed channel), both
+// fail against the live key, both settle as follower and each starts a new watch loop: the number of goroutines and
+// of store operations doubles every half second.
+func TestKnown_C13_EmptyRecordMultipliesRounds(t *testing.T) {
+	e, kv := kElection(t, kCfg())
+	if _, err := kv.Create("g", []byte{}); err != nil {
+		t.Fatal(err)
+	}
+	var creates atomic.Int64
+	kv.SetCreateFunc(func(key string, value []byte, opts ...natsmock.KVOption) (uint64, error) {
+		creates.Add(1)
+		return 0, errors.New("key already exists")
+	})
+	before := runtime.NumGoroutine()
+	_ = e.Start(context.Background())
+	time.Sleep(4 * time.Second)
+	extra, ops := runtime.NumGoroutine()-before, creates.Load()
+	e.Stop()
+	// one instance, 4 s: a bounded implementation needs a handful of goroutines and at most ~4 attempts per 500 ms
+	if extra > 60 || ops > 200 {
+		t.Fatalf("VIOLATION-REPRODUCED: one follower facing a live empty record: %d extra goroutines and %d Create calls after 4s", extra, ops)
+	}
+}
+
 // C11.expiry_demotes_unless_reconnected: after a disconnect the client gives the connection up ("closed"
 // notification). That is no reconnect, but the expiry handler only demoted while the status was exactly
 // Disconnected, so the grace period elapsed and the leader stayed.
